@@ -112,3 +112,15 @@ def replay(prop, path):
     print('no failing input recorded (no-failing-input-found); verifier output follows')
     print(d.get('verifier_output', '')[-3000:])
     return 1
+
+
+PLAN['C18'] = {
+    'level': 'other',
+    'technique': 'Kani full-domain harnesses (contract = assume pre / assert post) on the real fidget-gui View2/View3, with native replay of counterexamples',
+    'level_text': 'Partial: the exact clauses of the property (frame conditions of rotate/zoom, pitch range, changed-flag false on a bit-identical view) are proved for ALL f32 inputs by loop-free Kani harnesses on the real code; the approximate clauses (grabbed point stays under the cursor, matrix = translate x rotate x scale) are float identities that hold only approximately and are not decided.',
+    'level_note': 'Trusted: Kani/CBMC/CaDiCaL bit-precise f32 model for comparisons, + - * and clamp (the yaw `%` is modelled nondeterministically by CBMC, so nothing is claimed about the yaw range); nalgebra code is verified as compiled. Not covered: sequences of interactions through Canvas2/Canvas3 (integer screen positions through ImageSize transforms), translate (CBMC does not finish).',
+    'legs': [leg_kani('leaf')],
+    'explanation': 'Each harness quantifies over every f32 value of centre, scale, yaw, pitch, amount and cursor positions; harness bodies are generic over the input source so that a counterexample is re-executed natively against the real crate before it is reported.',
+    'assumptions': ['single-step contracts only: View2/View3 methods, not Canvas event sequences', 'clauses about approximate float identities are not covered'],
+}
+del NOT_APPLICABLE['C18']
